@@ -126,8 +126,11 @@ class NsHandler:
     def get_fqname(self, title, defaultns=0):
         return self.splitname(title, defaultns=defaultns)[2]
 
-    def maybe_capitalize(self, tag):
-        if self.capitalize:
+    def maybe_capitalize(self, tag, nsnum=None):
+        # a namespace may override the wiki-wide setting (the Gadget namespaces are
+        # 'case-sensitive' on wikis that capitalise first letters)
+        case = self.siteinfo["namespaces"].get(str(nsnum), {}).get("case") if nsnum is not None else None
+        if self.capitalize if case is None else case == "first-letter":
             first = tag[0:1].upper()
             # "ß".upper() is "SS": MediaWiki leaves such a first letter alone
             if len(first) == 1:
@@ -153,7 +156,7 @@ class NsHandler:
             nsnum = defaultns
 
         suffix = strip_edges(suffix)
-        suffix = self.maybe_capitalize(suffix)
+        suffix = self.maybe_capitalize(suffix, nsnum)
         if prefix:
             prefix += ":"
 
